@@ -366,6 +366,7 @@ type plan struct {
 	preWrote bool
 	atActs   []act // for fox-supplied handlers: actions read off the underlying writer at panic time
 	ctxMode  int   // state of the request context, see ctxModes
+	subst    int   // which context an OUTER middleware (outside Recovery) hands down the chain, see substNames
 }
 
 var cur *plan
@@ -472,6 +473,68 @@ func inner(next fox.HandlerFunc) fox.HandlerFunc {
 	}
 }
 
+// which context Recovery (and everything below it) works on: a middleware placed OUTSIDE Recovery may hand a copy
+// of the context down the chain (the documented way to wrap the ResponseWriter). CloneWith copies come from the
+// router's context pool and go back to it, so whatever an earlier request left there must not show.
+// (c.Clone() is not a context to hand down: its writer panics on every write by design.)
+const (
+	substNone             = iota
+	substCloneWith        // next(c.CloneWith(c.Writer(), c.Request())); Close() deferred
+	substCloneWithWrapped // next(c.CloneWith(<user type embedding c.Writer()>, c.Request())); Close() deferred
+	nSubst
+)
+
+var substNames = []string{"the router's own context", "c.CloneWith(c.Writer(), c.Request()) made by a middleware outside Recovery",
+	"c.CloneWith(wrapper{c.Writer()}, c.Request()) made by a middleware outside Recovery"}
+
+type wrapW struct{ fox.ResponseWriter }
+
+func outer(next fox.HandlerFunc) fox.HandlerFunc {
+	return func(c fox.Context) {
+		p := cur
+		if p == nil {
+			next(c)
+			return
+		}
+		switch p.subst {
+		case substCloneWith:
+			cc := c.CloneWith(c.Writer(), c.Request())
+			defer cc.Close()
+			next(cc)
+		case substCloneWithWrapped:
+			cc := c.CloneWith(wrapW{c.Writer()}, c.Request())
+			defer cc.Close()
+			next(cc)
+		default:
+			next(c)
+		}
+	}
+}
+
+// earlier requests served by the same router just before the observed one (what they leave in pooled contexts
+// must not show in the observed request): route templates instantiated with fresh values
+type primerTmpl struct {
+	format string // request target
+	nvals  int
+	names  []string
+	how    string
+}
+
+var primerTmpls = []primerTmpl{
+	{"/ign/%s", 1, []string{"x"}, "ignored trailing slash (route /ign/{x}/)"},
+	{"/ig/%s/%s/", 2, []string{"u", "v"}, "ignored trailing slash (route /ig/{u}/{v})"},
+	{"/r/%s", 1, []string{"id"}, "direct match (route /r/{id})"},
+	{"/u/%s/p/%s", 2, []string{"a", "b"}, "direct match (route /u/{a}/p/{b})"},
+	{"/files/%s/f.txt", 1, []string{"path"}, "direct match (route /files/*{path})"},
+	{"/static", 0, nil, "direct match (route /static)"},
+}
+
+type primer struct {
+	tmpl   int
+	subst  int
+	panics bool
+}
+
 // ---------- router under test ----------
 
 type routeDef struct {
@@ -485,6 +548,7 @@ var routeDefs = []routeDef{
 	{"GET", "/static", false},
 	{"GET", "/u/{a}/p/{b}", false},
 	{"GET", "/ign/{x}/", true},
+	{"GET", "/ig/{u}/{v}", true},
 	{"POST", "/only", false},
 	{"GET", "/dir/", false},
 	{"POST", "/dir/", false},
@@ -543,6 +607,7 @@ func recoveryMW(w *world, variant int) fox.MiddlewareFunc {
 
 func build(w *world, special bool, variant int) *fox.Router {
 	opts := []fox.GlobalOption{
+		fox.WithMiddleware(outer),
 		fox.WithMiddleware(recoveryMW(w, variant)),
 		fox.WithMiddleware(inner),
 		fox.WithRedirectTrailingSlash(true),
@@ -628,6 +693,7 @@ var requests = []reqSpec{
 	{"OptionsHandler", "OPTIONS", "/r/1", "", nil, true},
 	{"RedirectHandler", "GET", "/dir", "", nil, true},
 	{"RedirectHandler", "POST", "/dir", "", nil, true},
+	{"RouteHandler", "GET", "/ig/k1/k2/", "/ig/{u}/{v}", [][2]string{{"u", "k1"}, {"v", "k2"}}, false},
 }
 
 // ---------- request headers ----------
@@ -792,7 +858,7 @@ func main() {
 			"Definition viol := Eval vm_compute in spec_violations cases.\nPrint viol.\n" +
 			"Definition oof := Eval vm_compute in fuel_outs cases.\nPrint oof.\n",
 	}
-	st := &hx.Stats{Rule: "panic cases: every curated panic value (27: errors, wrapped/joined errors, string, panic(nil), custom struct/pointer, int, runtime error, ErrAbortHandler plain/wrapped/joined/inside OpError, net.OpError over os.SyscallError with EPIPE/ECONNRESET/other errno, without SyscallError, wrapped from outside, nested, upper-case text) x every request kind (5 route shapes incl. catch-all, two params, ignore-trailing-slash; 404; 405; OPTIONS; redirect GET/POST) x panic site (handler, inner middleware before/after next, handler inside Updates/View) with a seeded random response progress (nothing, header only, partial body, informational only, started ONLY by a flush — FlushError / ResponseController.Flush — on an underlying writer that offers nothing / http.Flusher / FlushError() error; flush-only x every curated value x each of the three writers is enumerated) and seeded random request headers (1-4 credential names in canonical/lower/upper/as-written/mixed capitalisation set directly in the map, 0-3 look-alike ordinary names, sometimes an invalid name), plus seeded random error trees (depth <= 3) and no-panic controls; every case is followed by a control request, a Handle+Delete and a route listing. txn cases: Updates, unmanaged Txn(true) (panic under a deferred Abort / explicit Abort / Commit) and View over routes of common (GET, POST, DELETE) and non-common (TRACE, custom PURGE) verbs; operation alphabet = Handle/Update/Delete of 5 routes, Has, and Truncate with 12 method lists (none, single common, single non-common, common-before-non-common, non-common-before-common, absent verb); every single operation x every ending x every initial set, every ordered pair (quick: seeded kind/ending/initial per pair, Truncate pairs always), random longer lists; afterwards the live route set is read three ways (Iter().All, Has, one request per route whose body tells the handler version) and compared with the model and, for every non-committed ending, with the initial set; write helper Handle with a panicking middleware. non-trivial = the case panics (panic cases) or performs at least one operation or ends abnormally (txn cases); distinct = distinct Coq case terms"}
+	st := &hx.Stats{Rule: "panic cases: every curated panic value (27: errors, wrapped/joined errors, string, panic(nil), custom struct/pointer, int, runtime error, ErrAbortHandler plain/wrapped/joined/inside OpError, net.OpError over os.SyscallError with EPIPE/ECONNRESET/other errno, without SyscallError, wrapped from outside, nested, upper-case text) x every request kind (5 route shapes incl. catch-all, two params, ignore-trailing-slash; 404; 405; OPTIONS; redirect GET/POST) x panic site (handler, inner middleware before/after next, handler inside Updates/View) with a seeded random response progress (nothing, header only, partial body, informational only, started ONLY by a flush — FlushError / ResponseController.Flush — on an underlying writer that offers nothing / http.Flusher / FlushError() error; flush-only x every curated value x each of the three writers is enumerated) and seeded random request headers (1-4 credential names in canonical/lower/upper/as-written/mixed capitalisation set directly in the map, 0-3 look-alike ordinary names, sometimes an invalid name), plus seeded random error trees (depth <= 3) and no-panic controls; the context Recovery works on is the router's own or a copy made by a middleware placed outside Recovery (CloneWith with the same writer / with a wrapping writer, pooled and closed; a Clone cannot be handed down: its writer panics on a write by design), and the observed request is preceded by 0-3 earlier requests on the same router (ignored-trailing-slash matches with one / two parameters, direct matches, some panicking, through the same or another kind of context) whose values are fresh — substitution x route request x six histories is enumerated; the logged route and params attributes are compared with the pattern registered and the values put into the target; every case is followed by a control request, a Handle+Delete and a route listing. txn cases: Updates, unmanaged Txn(true) (panic under a deferred Abort / explicit Abort / Commit) and View over routes of common (GET, POST, DELETE) and non-common (TRACE, custom PURGE) verbs; operation alphabet = Handle/Update/Delete of 5 routes, Has, and Truncate with 12 method lists (none, single common, single non-common, common-before-non-common, non-common-before-common, absent verb); every single operation x every ending x every initial set, every ordered pair (quick: seeded kind/ending/initial per pair, Truncate pairs always), random longer lists; afterwards the live route set is read three ways (Iter().All, Has, one request per route whose body tells the handler version) and compared with the model and, for every non-committed ending, with the initial set; write helper Handle with a panicking middleware. non-trivial = the case panics (panic cases) or performs at least one operation or ends abnormally (txn cases); distinct = distinct Coq case terms"}
 	seen := map[string]bool{}
 	nontrivial := 0
 	var pending []tcase
@@ -820,6 +886,12 @@ func main() {
 
 	fkForce := -1
 	ctxForce := -1
+	// the dimensions added in round 7 draw from their own generator (derived from the same seed), so the streams
+	// of the older dimensions stay what they were
+	rnd2 := hx.NewRand(hx.Seed() + 15)
+	substForce := -1
+	var histForce []primer
+	histForced := false
 	onePanic := func(special int, rq reqSpec, where int, acts []act, progress string, val *pv, hd hdrs) {
 		variant := rvCapture
 		if rvForce >= 0 {
@@ -842,7 +914,25 @@ func main() {
 		if where == inMWAfter && foxHandler {
 			acts = nil // the handler fox supplies does the writing; the inner middleware raises after it
 		}
-		p := &plan{where: where, acts: acts, panics: val != nil}
+		subst := substNone
+		if substForce >= 0 {
+			subst = substForce
+		} else if rnd2.Pct(35) {
+			subst = 1 + rnd2.Intn(nSubst-1)
+		}
+		var hist []primer
+		if histForced {
+			hist = histForce
+		} else if rnd2.Pct(45) {
+			for i, n := 0, 1+rnd2.Intn(3); i < n; i++ {
+				m := subst
+				if rnd2.Pct(30) {
+					m = rnd2.Intn(nSubst)
+				}
+				hist = append(hist, primer{rnd2.Intn(len(primerTmpls)), m, rvVisible(variant) && rnd2.Pct(20)})
+			}
+		}
+		p := &plan{where: where, acts: acts, panics: val != nil, subst: subst}
 		if val != nil {
 			p.val = val.val
 		}
@@ -882,6 +972,27 @@ func main() {
 		}
 		p.acts = acts
 		p.u = u
+		// the history: earlier requests on the same router (same context pool), served just before
+		var histH []string
+		for _, pr := range hist {
+			t := primerTmpls[pr.tmpl]
+			vals := make([]any, t.nvals)
+			for i := range vals {
+				vals[i] = fmt.Sprintf("h%04x", rnd2.Intn(1<<16))
+			}
+			target := fmt.Sprintf(t.format, vals...)
+			pp := &plan{where: inHandler, panics: pr.panics, val: errors.New("earlier panic"), u: newUW(), subst: pr.subst}
+			cur = pp
+			func() {
+				defer func() { _ = recover() }()
+				preq := &http.Request{Method: "GET", URL: &url.URL{Path: target}, Proto: "HTTP/1.1", ProtoMajor: 1, ProtoMinor: 1,
+					Header: http.Header{}, Host: "example.com", RemoteAddr: "192.0.2.7:999", RequestURI: target, Body: http.NoBody}
+				f.ServeHTTP(pp.u, preq.WithContext(context.Background()))
+			}()
+			cur = nil
+			histH = append(histH, fmt.Sprintf("GET %s [%s; handler %s; context: %s]", target, t.how,
+				map[bool]string{true: "panics (recovered)", false: "returns"}[pr.panics], substNames[pr.subst]))
+		}
 		wd.recs = nil
 		cur = p
 		var escaped any
@@ -968,9 +1079,13 @@ func main() {
 		if val != nil {
 			vh, class = "panic("+val.human+")", val.class
 		}
-		human := fmt.Sprintf("%s %s (%s, custom-special-handlers=%v, "+rvNames[variant]+", request context "+ctxModes[ctxMode]+") headers {%s} | site=%s before-panic=[%s] %s => escaped=%s wrote=%v status=%d body=%q untouched-since-panic=%v records=%s followup-ok=%v write-ok=%v routes-same=%v",
+		human := fmt.Sprintf("%s %s (%s, custom-special-handlers=%v, "+rvNames[variant]+", request context "+ctxModes[ctxMode]+", Recovery and the chain below it work on "+substNames[subst]+") earlier requests on this router, in order: ["+strings.Join(histH, "; ")+"] headers {%s} | site=%s before-panic=[%s] %s => escaped=%s wrote=%v status=%d body=%q untouched-since-panic=%v records=%s followup-ok=%v write-ok=%v routes-same=%v",
 			rq.method, rq.target, rq.scope, special == 1, strings.Join(hd.desc, "; "), whereNames[where], strings.Join(ah, "; "), vh, esc, u.wrote, status, u.body, u.digest() == p.snapshot, strings.Join(recHuman, " || "), fu, wr, rs)
-		emitTag = ctxModes[ctxMode]
+		histTag := ""
+		for _, pr := range hist {
+			histTag += fmt.Sprintf("|%d.%d.%v", pr.tmpl, pr.subst, pr.panics)
+		}
+		emitTag = ctxModes[ctxMode] + "#" + substNames[subst] + "#" + histTag
 		emitted := emit(term, human, val != nil)
 		emitTag = ""
 		if emitted {
@@ -978,6 +1093,11 @@ func main() {
 			st.Count("scope:" + rq.scope)
 			st.Count("recovery:" + rvNames[variant])
 			st.Count("request-context:" + ctxModes[ctxMode])
+			st.Count("context-given-to-recovery:" + substNames[subst])
+			st.Count(fmt.Sprintf("earlier-requests-on-the-router:%d", len(hist)))
+			for _, pr := range hist {
+				st.Count("earlier-request:" + primerTmpls[pr.tmpl].how)
+			}
 			st.Count("site:" + whereNames[where])
 			st.Count("progress:" + map[bool]string{true: "started", false: "not-started"}[p.preWrote])
 			if where != inMWAfter || !foxHandler {
@@ -1047,6 +1167,36 @@ func main() {
 			onePanic(vi%2, requests[(vi+cm)%len(requests)], hx.Pick(rnd, []int{inHandler, inMWBefore}), nil, "nothing", &curated[vi], genHeaders(rnd, st))
 		}
 		ctxForce = -1
+	}
+	// context substituted by a middleware outside Recovery x what earlier requests left in the router's context pool:
+	// every substitution x every route request x six histories (an ignored-trailing-slash request with one / two
+	// parameters through the same kind of copy, a direct one, one through the router's own context, two in a row, none)
+	{
+		vals := []int{0, 4, 5, 7, 8, 9, 14, 19, 1, 3}
+		k := 0
+		for sm := 1; sm < nSubst; sm++ {
+			pm := sm
+			hists := [][]primer{
+				{{0, pm, false}}, {{1, pm, false}}, {{3, pm, false}}, {{0, substNone, false}, {1, substNone, false}},
+				{{1, pm, false}, {2, pm, true}}, {},
+			}
+			for _, rq := range requests {
+				if rq.scope != "RouteHandler" {
+					continue
+				}
+				for _, h := range hists {
+					substForce, histForce, histForced = sm, h, true
+					var acts []act
+					progress := "nothing"
+					if k%3 == 2 {
+						acts, progress = genActs(rnd2)
+					}
+					onePanic(k%2, rq, []int{inHandler, inMWBefore, inMWAfter}[k%3], acts, progress, &curated[vals[k%len(vals)]], genHeaders(rnd2, st))
+					k++
+				}
+			}
+		}
+		substForce, histForce, histForced = -1, nil, false
 	}
 	for i := 0; i < nrandom; i++ {
 		t := genTree(rnd, 3)
